@@ -3,6 +3,7 @@ package main
 import (
 	"go/token"
 	"os"
+	"regexp"
 	"strings"
 
 	"golang.org/x/tools/go/ssa"
@@ -188,6 +189,12 @@ func helperSuccessFacts(a Atom, depth int) []Atom {
 	var common []Atom
 	for i, r := range rets {
 		fs := factsAtDepth(r.Block(), depth+1)
+		// the error this return hands back is nil on the success edge: `return f(..)` makes f's error nil too
+		if ei < len(r.Results) && !isNilConst(r.Results[ei]) {
+			at := Atom{Op: "eq", X: r.Results[ei], Y: ssa.NewConst(nil, r.Results[ei].Type())}
+			fs = append(append([]Atom{}, fs...), at)
+			fs = append(fs, helperSuccessFacts(at, depth+1)...)
+		}
 		if i == 0 {
 			common = fs
 			continue
@@ -305,6 +312,12 @@ func helperBoolFacts(a Atom, depth int) []Atom {
 		return nil
 	}
 	call, isC := a.X.(*ssa.Call)
+	idx := 0
+	if ex, isEx := a.X.(*ssa.Extract); isEx && !isC {
+		// one boolean among several results of a new helper
+		call, isC = ex.Tuple.(*ssa.Call)
+		idx = ex.Index
+	}
 	if !isC {
 		return nil
 	}
@@ -313,7 +326,7 @@ func helperBoolFacts(a Atom, depth int) []Atom {
 		return nil
 	}
 	res := g.Signature.Results()
-	if res.Len() != 1 || res.At(0).Type().String() != "bool" {
+	if idx >= res.Len() || res.At(idx).Type().String() != "bool" || (res.Len() != 1 && a.X == ssa.Value(call)) {
 		return nil
 	}
 	want := a.Op == "true"
@@ -331,7 +344,10 @@ func helperBoolFacts(a Atom, depth int) []Atom {
 		if !isR {
 			continue
 		}
-		for _, lf := range retLeaves(r.Results[0], b, map[ssa.Value]bool{}) {
+		if ei := errResultIndex(g); ei >= 0 && ei < len(r.Results) && ei != idx && definitelyNonNilErr(r.Results[ei], b, map[ssa.Value]bool{}) {
+			continue // a failing return: the caller does not look at the boolean
+		}
+		for _, lf := range retLeaves(r.Results[idx], b, map[ssa.Value]bool{}) {
 			var fs []Atom
 			if k, isK := lf.val.(*ssa.Const); isK && k.Value != nil {
 				if (k.Value.ExactString() == "true") != want {
@@ -463,4 +479,99 @@ func mustFollowDeep(fn *ssa.Function, from ssa.Instruction, pred func(ssa.Instru
 		ok = false
 	}
 	return ok, n
+}
+
+// symsThroughHelper: the symbolic forms of v; when v is (a component of) the result of a call to a new helper, the
+// forms of the values the helper returns there, with the helper's parameters replaced by the arguments of THIS call
+// site (so a helper shared by several callers is read once per caller).
+func symsThroughHelper(v ssa.Value, depth int) []string {
+	call, k := callOf(v)
+	if call == nil || depth > 3 {
+		return []string{Sym(v)}
+	}
+	g := newHelperCallee(call)
+	if g == nil {
+		return []string{Sym(v)}
+	}
+	if k < 0 {
+		k = 0
+	}
+	var out []string
+	for _, hv := range helperReturns(g, k) {
+		for _, s := range symsThroughHelper(hv, depth+1) {
+			for i, p := range g.Params {
+				if i < len(call.Common().Args) {
+					re := regexp.MustCompile(`\bp:` + regexp.QuoteMeta(paramName(p)) + `\b`)
+					s = re.ReplaceAllLiteralString(s, Sym(call.Common().Args[i]))
+				}
+			}
+			out = append(out, s)
+		}
+	}
+	if len(out) == 0 {
+		return []string{Sym(v)}
+	}
+	return out
+}
+
+// recordRoot: where a record value comes from once new helpers are seen through: a parameter of a new helper is the
+// argument at its call site, the result of a new helper is the one value it returns; the walk ends at a value of a
+// function on the pinned tree (its parameter, a keeper call, a local).
+func recordRoot(v ssa.Value) ssa.Value {
+	for d := 0; d < 8; d++ {
+		if p := paramOfValue(v); p != nil {
+			a := transparentArg(p)
+			if a == nil {
+				return p
+			}
+			v = a
+			continue
+		}
+		if call, k := callOf(v); call != nil {
+			if g := newHelperCallee(call); g != nil {
+				if k < 0 {
+					k = 0
+				}
+				if rs := helperReturns(g, k); len(rs) == 1 {
+					v = rs[0]
+					continue
+				}
+			}
+		}
+		return v
+	}
+	return v
+}
+
+// symInCaller: Sym(v) with the parameters of the new helper(s) v lives in replaced by the arguments at their unique
+// call sites, so that a rule written against the pinned function reads the same text after an extraction.
+func symInCaller(v ssa.Value) string {
+	s := Sym(v)
+	var fn *ssa.Function
+	if in, ok := v.(ssa.Instruction); ok {
+		fn = in.Parent()
+	} else if p, ok := v.(*ssa.Parameter); ok {
+		fn = p.Parent()
+	}
+	for d := 0; d < 4 && fn != nil; d++ {
+		top := fn
+		for top.Parent() != nil {
+			top = top.Parent()
+		}
+		if !isNewFunc(top) {
+			break
+		}
+		site := transparentSite(top)
+		if site == nil {
+			break
+		}
+		for i, p := range top.Params {
+			if i < len(site.Common().Args) {
+				re := regexp.MustCompile(`\bp:` + regexp.QuoteMeta(paramName(p)) + `\b`)
+				s = re.ReplaceAllLiteralString(s, Sym(site.Common().Args[i]))
+			}
+		}
+		fn = site.Parent()
+	}
+	return s
 }
